@@ -4,8 +4,11 @@ import json, subprocess
 props = [json.loads(l) for l in open('/verif/properties.jsonl')]
 T = {
  'C01': ('reference-model monitor: documented npm desugaring of a generated range AST vs Range::satisfies on boundary probes (exhaustive operator x shape table, pairs, random loose spellings)', '5 C01'),
+ 'C02': ('metamorphic monitor (crate vs crate): parse(a||b) vs parse(a) or parse(b); parse(a b) vs both sides on release / within-bounds-and-one-side on prerelease; order and garbage invariance; pairs of the exhaustive comparator table + random lists + triples in all orders', '5 C02'),
+ 'C03': ('reference-model monitor of the prerelease gate relative to the hook-observed bounds: satisfies == within bounds and a written same-tuple tag; build-metadata invariance; resolver use via max/min_satisfying', '5 C03'),
  'C04': ('reference-model monitor: SemVer §11 order written over identifier text vs Ord/Eq/PartialOrd/Hash on all ordered pairs of a version pool, sampled triples, sort/BTreeSet/min/max of sub-lists', '5 C04'),
  'C05': ('reference-model monitor: hand-written version grammar recogniser + denotation (strict language must parse, accepted strings must lie in the loose envelope, fields must equal the denotation) over every string of a 9-character alphabet up to length 7/9, one-edit neighbourhoods, near-limit inputs', '5 C05'),
+ 'C11': ('reference-model monitor: least admitted version from hook-observed bounds by an exact candidate-set model (self-checked against brute force), witnesses re-confirmed by the crate satisfies', '5 C11'),
  'C12': ('round-trip monitor: parse -> print -> parse field equality, fixed point, serde JSON = printed string, over every accepted string of the exhaustive enumeration, loose spellings, near-limit inputs, field-built versions', '5 C12'),
  'C17': ('invariant monitor on every parse error observed on hostile inputs: input()/offset()/span/location() recomputed independently, miette diagnostics rendered, error-kind clauses', '5 C17'),
  'C18': ('differential monitor: From<(T,T,T[,T])> for all ten integer types vs Version::parse of the dotted string (exhaustive u8/i8 triples, boundary values for wide types)', '5 C18'),
@@ -13,6 +16,9 @@ T = {
  'C08': ('reference-model monitor: pointwise set-difference oracle over hook-observed bounds (all alternatives of B), exact emptiness by interval model, partition with intersect', '5 C08'),
  'C09': ('metamorphic + reference-model monitor: allows_any vs intersect().is_some() vs exact interval overlap, exhaustive touching-endpoint table', '5 C09'),
  'C10': ('reference-model monitor: allows_all soundness on boundary probes, self-inclusion, equivalence with difference().is_none() for single alternatives', '5 C10'),
+ 'C13': ('round-trip monitor: print -> parse -> same satisfies and hook bounds on boundary probes, == for parsed ranges, fixed point, Display read back against hook state, serde; over parsed ranges and results of up to three set operations', '5 C13'),
+ 'C14': ('oracle monitor: max/min_satisfying result vs candidates under the model order, pointer-into-slice check, all permutations of short lists', '5 C14'),
+ 'C15': ('reference-model monitor: expression trees over intersect/difference evaluated by the crate vs pointwise set algebra on hook-observed leaf bounds; algebraic identities on crate results; intermediates re-parsed and reused', '5 C15'),
  'C16': ('reference-model monitor: table statement of node-semver 7.6.2 diff (validated against frozen real answers) over exhaustive small-field pairs + random pairs', '5 C16'),
 }
 checks = []
